@@ -122,7 +122,9 @@ pub fn worker_main(args: &[String]) -> i32 {
                 let _ = writeln!(
                     o,
                     "V {}",
-                    json!({"i": i, "seed": seed, "oracle": after.oracle, "detail": after.detail, "props": after.props, "replay": path})
+                    json!({"i": i, "seed": seed, "oracle": after.oracle, "detail": after.detail, "props": after.props, "replay": path,
+                           "from": from, "base": base, "engine": eng.name(), "profile": profile,
+                           "orig_oracle": v.oracle, "orig_detail": v.detail})
                 );
                 let _ = o.flush();
                 found = true;
@@ -201,6 +203,38 @@ pub fn replay_main(path: &str, quiet: bool) -> i32 {
     };
     let prop = doc["property"].as_str().unwrap_or("").to_string();
     let eng = engine(doc["engine"].as_str().unwrap_or(""));
+    if let Some(sl) = doc.get("slice") {
+        // the violation depends on what the same process executed before (process-global state):
+        // re-execute the worker's whole slice up to the failing run
+        let profile = doc["profile"].as_str().unwrap_or("").to_string();
+        let base = sl["base"].as_u64().unwrap_or(0);
+        let from = sl["from"].as_u64().unwrap_or(0);
+        let upto = sl["upto"].as_u64().unwrap_or(0);
+        let exp_oracle = doc["expect"]["oracle"].as_str().unwrap_or("").to_string();
+        for i in from..=upto {
+            let seed = run_seed_for(base, eng.name(), &profile, i);
+            let rep = eng.run_seed(&profile, seed, &prop, false);
+            if let Some(v) = rep.violation {
+                if v.concerns(&prop) {
+                    if i == upto && v.oracle == exp_oracle {
+                        if !quiet {
+                            println!("REPRODUCED property={} oracle={} (run {} of a process that executed runs {}..={}) detail={}", prop, v.oracle, i, from, upto, v.detail);
+                            println!("VIOLATION property={} replay={}", prop, path);
+                        }
+                        return 1;
+                    }
+                    if !quiet {
+                        println!("DIFFERENT run {} oracle={} detail={}", i, v.oracle, v.detail);
+                    }
+                    return 3;
+                }
+            }
+        }
+        if !quiet {
+            println!("NOT-REPRODUCED property={} (no violation on this tree)", prop);
+        }
+        return 0;
+    }
     let profile = doc["profile"].as_str().unwrap_or("").to_string();
     let seed = doc["seed"].as_u64().unwrap_or(0);
     let exp_oracle = doc["expect"]["oracle"].as_str().unwrap_or("").to_string();
@@ -681,10 +715,49 @@ pub fn check_main(prop: &str, tier: &str, plan: &Plan) -> i32 {
             .status();
         match st.ok().and_then(|s| s.code()) {
             Some(1) => reported.push((path, detail)),
-            other => harness_errors.push(format!(
-                "replay of {} in a fresh process did not reproduce the violation (exit {:?})",
-                path, other
-            )),
+            other => {
+                // Not reproducible from the case alone: the outcome depends on what the worker
+                // process had executed before (process-global state in the code under test).
+                // Replay the worker's slice of runs up to the failing one instead.
+                let engine_name = v["engine"].as_str().unwrap_or("");
+                let profile = v["profile"].as_str().unwrap_or("");
+                let slice_path = format!(
+                    "{}/replays/{}/{}-{}-slice-{}-{}.json",
+                    VERIF_DIR,
+                    prop,
+                    engine_name,
+                    profile,
+                    v["from"].as_u64().unwrap_or(0),
+                    v["i"].as_u64().unwrap_or(0)
+                );
+                let doc = json!({
+                    "property": prop,
+                    "engine": engine_name,
+                    "profile": profile,
+                    "seed": v["seed"],
+                    "expect": {"props": [prop], "oracle": v["orig_oracle"], "detail": v["orig_detail"]},
+                    "slice": {"base": v["base"], "from": v["from"], "upto": v["i"]},
+                    "note": "the minimised case alone did not reproduce in a fresh process: the violation depends on what the same process executed earlier; this file re-executes that sequence of runs",
+                });
+                let _ = std::fs::write(&slice_path, serde_json::to_string_pretty(&doc).unwrap());
+                let st2 = Command::new(&exe)
+                    .arg("replay")
+                    .arg(&slice_path)
+                    .arg("--quiet")
+                    .stdout(Stdio::null())
+                    .stderr(Stdio::null())
+                    .status();
+                match st2.ok().and_then(|s| s.code()) {
+                    Some(1) => reported.push((
+                        slice_path,
+                        format!("{} [depends on earlier runs in the same process]", v["orig_detail"].as_str().unwrap_or(&detail)),
+                    )),
+                    other2 => harness_errors.push(format!(
+                        "replay of {} in a fresh process did not reproduce the violation (exit {:?}), nor did the slice replay (exit {:?})",
+                        path, other, other2
+                    )),
+                }
+            }
         }
     }
     known_hits.sort();
